@@ -267,3 +267,41 @@ def int_bounds(fs, name):
             upd("ge", c)
             upd("le", c)
     return lo, hi
+
+
+def canon_fact(e, pol):
+    """Canonical form of one must-fact, independent of how the test was spelled:
+         x is not None / not (x is None)        -> ("is", "x", "None", False)
+         a not in b                             -> ("in", "a", "b", False)
+         a != b                                 -> ("==", "a", "b", False)        (operands sorted)
+         a > b, b < a, not a <= b               -> ("<", "b", "a", True)
+         a >= b, not a < b                      -> ("<", "a", "b", False)
+         anything else                          -> ("expr", text, "", polarity)"""
+    if isinstance(e, ast.Compare) and len(e.ops) == 1:
+        l, r, op = norm(e.left), norm(e.comparators[0]), type(e.ops[0])
+        if op in (ast.Is, ast.IsNot):
+            return ("is", l, r, pol == (op is ast.Is))
+        if op in (ast.In, ast.NotIn):
+            return ("in", l, r, pol == (op is ast.In))
+        if op in (ast.Eq, ast.NotEq):
+            a, b = sorted((l, r))
+            return ("==", a, b, pol == (op is ast.Eq))
+        if op is ast.Lt:
+            return ("<", l, r, pol)
+        if op is ast.Gt:
+            return ("<", r, l, pol)
+        if op is ast.GtE:
+            return ("<", l, r, not pol)
+        if op is ast.LtE:
+            return ("<", r, l, not pol)
+    return ("expr", norm(e), "", pol)
+
+
+def canon_facts(node, stop=None):
+    """Set of canonical must-facts at `node` (see canon_fact)."""
+    return {canon_fact(e, pol) for e, pol in facts(node, stop)}
+
+
+def canon_test(test, pol=True):
+    """Canonical conjuncts of a test taken with the given polarity."""
+    return {canon_fact(e, p) for e, p in split(test, pol)}
